@@ -51,6 +51,7 @@ VARIANTS = {
     "be":      ("gcc",   ["-O2", "-U__BYTE_ORDER__", "-D__BYTE_ORDER__=__ORDER_BIG_ENDIAN__"]),
     "asan":    ("clang", ["-O1", "-g", "-fsanitize=address,undefined", "-fno-sanitize-recover=undefined",
                           "-fno-omit-frame-pointer"]),
+    "asanrec": ("clang", ["-O1", "-g", "-fsanitize=address", "-fsanitize-recover=address", "-fno-omit-frame-pointer"]),
     "ubsan":   ("clang", ["-O1", "-g", "-fsanitize=undefined,alignment", "-fsanitize-recover=all"]),
     "align":   ("clang", ["-O1", "-g", "-fsanitize=alignment", "-fsanitize-recover=alignment"]),
     "tsan":    ("clang", ["-O1", "-g", "-fsanitize=thread"]),
